@@ -36,7 +36,7 @@ EPS32 = float(np.finfo(np.float32).eps)
 def plan(tier, seed):
     out = []
     for i in range(16):
-        s = {"shard": i, "families": 1 if tier == "quick" else 6, "max_nx": 33 if tier == "quick" else 70}
+        s = {"shard": i, "families": 1 if tier == "quick" else 20, "max_nx": 33 if tier == "quick" else 70}
         if i == 14:
             s["env"] = {"NUMBA_BOUNDSCHECK": "1"}
         if i == 15:
